@@ -296,6 +296,19 @@ Proof.
   apply (bwp_push_tok md); [exact HX|apply TR_mk; apply SPR_mk; [exact (br_mark H)|exact HM]|]. intros; fin.
 Qed.
 
+(* the 1024-character test on the implicit key of a flow-sequence pair (fetch_value): a possible key that is not on an
+   earlier line is on the current line and has the current index shift, so the distance is the same on both sides *)
+Lemma key_far_brk c1 c2 k1 k2 : KR c1 c2 k1 k2 -> sk_possible k1 = true ->
+  ((m_line (sk_mark k1) <? m_line c1)%N || (m_index (sk_mark k1) + SIMPLE_KEY_MAX <? m_index c1)%N)
+  = ((m_line (sk_mark k1) <? m_line c1)%N || (m_index (sk_mark k2) + SIMPLE_KEY_MAX <? m_index c2)%N).
+Proof.
+  intros HK EP. destruct (m_line (sk_mark k1) <? m_line c1)%N eqn:EL; [reflexivity|]. cbn [orb].
+  apply N.ltb_ge in EL. pose proof (kr_line HK EP) as L1.
+  assert (E : m_line (sk_mark k1) = m_line c1) by lia. pose proof (kr_shift HK EP E) as S.
+  destruct (N.ltb_spec (m_index (sk_mark k1) + SIMPLE_KEY_MAX) (m_index c1));
+  destruct (N.ltb_spec (m_index (sk_mark k2) + SIMPLE_KEY_MAX) (m_index c2)); try reflexivity; lia.
+Qed.
+
 Theorem fetch_value_ok : brk_fetch_value md.
 Proof.
   intros F1 F2 s1 s2 H N0. unfold fetch_value.
@@ -321,13 +334,16 @@ Proof.
     br; [apply (bwp_mark_fail md); exact HX|apply bwp_ret; fin]. }
   intros [] x1 x2 HX.
   rewrite <- (kr_possible HK), <- (kr_number HK), <- (proj1 (kr_mark HK)), <- (proj2 (kr_mark HK)).
-  destruct (sk_possible k1).
+  destruct (sk_possible k1) eqn:EP.
   - (* the pending simple key becomes a KEY token *)
     apply bwp_bind. apply bwp_get. cbv beta. br_sync HX.
     apply bwp_bind. br; [apply bwp_panic_l|]. apply bwp_ret.
     apply bwp_bind. apply (bwp_insert_token md); [exact HX|apply TR_empty; exact (kr_mark HK)|]. intros y1 y2 HY _.
     eapply (bwp_call_eq md).
-    { br; [|apply bwp_ret; fin]. br; [apply bwp_fail; exact (br_mark H)|]. br; [|apply bwp_ret; fin].
+    { br; [|apply bwp_ret; fin].
+      match goal with |- bwp (if ?b1 then _ else _) (if ?b2 then _ else _) _ _ _ =>
+        replace b2 with b1 by (apply (key_far_brk _ _ _ _ HK EP)) end.
+      br; [apply bwp_fail; exact (br_mark H)|]. br; [|apply bwp_ret; fin].
       apply (bwp_insert_token md); [exact HY|apply TR_empty; exact (kr_mark HK)|]. intros; fin. }
     intros [] z1 z2 HZ.
     apply bwp_bind. apply (bwp_roll_indent md); [exact HZ|exact (kr_mark HK)|]. intros a1 a2 HA _.
